@@ -152,6 +152,52 @@ Proof.
   - split; [apply ptr_valid; exact B0|]. split; [apply ptr_valid; exact B1|]. split; [apply ptr_valid; exact B2|exact I].
 Qed.
 
+(* only headers of blocks are written *)
+Lemma a_erase_nonblk p h a : (p = 0 \/ is_blk p) -> ~ is_blk a -> words (a_erase p h) a = words h a.
+Proof.
+  intros Hp Ha. unfold a_erase. destruct (p =? 0) eqn:E0; [reflexivity|]. apply Z.eqb_neq in E0.
+  destruct Hp as [?|Hp]; [contradiction|].
+  destruct (words h p =? 0); cbn [words]; unfold upd; destruct (Z.eqb_spec a p); subst; try contradiction; reflexivity.
+Qed.
+Lemma a_share_nonblk p n h a : (p = 0 \/ is_blk p) -> ~ is_blk a -> words (a_share p n h) a = words h a.
+Proof.
+  intros Hp Ha. unfold a_share. destruct (p =? 0) eqn:E0; [reflexivity|]. apply Z.eqb_neq in E0.
+  destruct Hp as [?|Hp]; [contradiction|]. cbn [words]. unfold upd. destruct (Z.eqb_spec a p); subst; try contradiction; reflexivity.
+Qed.
+Lemma not_blk_off b off : is_blk b -> 0 < off < 64 -> ~ is_blk (b + off).
+Proof. intros (k & Hk & -> & _) Ho (j & Hj & E & _). unfold HEAP_BASE in *. lia. Qed.
+Lemma erase_children_eq h b :
+  is_blk b ->
+  let c0 := words h (b + 16) in let c1 := words h (b + 32) in let c2 := words h (b + 48) in
+  (c0 = 0 \/ is_blk c0) -> (c1 = 0 \/ is_blk c1) -> (c2 = 0 \/ is_blk c2) ->
+  erase_children b [0; 1; 2]%N h = a_erase c2 (a_erase c1 (a_erase c0 h)).
+Proof.
+  intros Hb c0 c1 c2 B0 B1 B2. cbn [erase_children].
+  change (field_offset Fst 0) with 16. change (field_offset Fst 1) with 32. change (field_offset Fst 2) with 48.
+  fold c0. rewrite (a_erase_slots c0 h b 32 B0 Hb ltac:(lia)). fold c1.
+  rewrite (a_erase_slots c1 _ b 48 B1 Hb ltac:(lia)), (a_erase_slots c0 h b 48 B0 Hb ltac:(lia)). reflexivity.
+Qed.
+Lemma a_acquire_nonblk h a :
+  is_blk (hp h) -> (words h (hp h) = 0 -> is_blk (fp h)) ->
+  (words h (hp h) = 0 -> words h (fp h) <> 0 ->
+     (words h (fp h + 16) = 0 \/ is_blk (words h (fp h + 16))) /\
+     (words h (fp h + 32) = 0 \/ is_blk (words h (fp h + 32))) /\
+     (words h (fp h + 48) = 0 \/ is_blk (words h (fp h + 48)))) ->
+  ~ is_blk a -> words (snd (a_acquire h)) a = words h a.
+Proof.
+  intros Hb Hb2 Hch Ha. unfold a_acquire.
+  destruct (Z.eqb_spec (words h (hp h)) 0) as [E0|N0]; cbn [negb snd].
+  - specialize (Hb2 E0). destruct (Z.eqb_spec (words h (fp h)) 0) as [F0|FN]; cbn [snd words]; [reflexivity|].
+    destruct (Hch E0 FN) as (S0 & S1 & S2).
+    set (hh := {| words := upd (words h) (fp h) 0; hp := fp h; fp := words h (fp h) |}).
+    assert (SL : forall off, 0 < off < 64 -> words hh (fp h + off) = words h (fp h + off)).
+    { intros off Ho. unfold hh. cbn [words]. unfold upd. destruct (Z.eqb_spec (fp h + off) (fp h)); [lia|reflexivity]. }
+    rewrite (erase_children_eq hh (fp h) Hb2) by (rewrite SL by lia; assumption).
+    rewrite !a_erase_nonblk by (rewrite ?SL by lia; assumption).
+    unfold hh. cbn [words]. unfold upd. destruct (Z.eqb_spec a (fp h)); subst; [contradiction|reflexivity].
+  - cbn [words]. unfold upd. destruct (Z.eqb_spec a (hp h)); subst; [contradiction|reflexivity].
+Qed.
+
 (* acquire *)
 Lemma habs_acquire F h :
   is_blk (hp h) ->
@@ -210,12 +256,13 @@ Theorem rv_share_block_heap i t n lc s p F h0 f0 :
   exists s',
     star im i s (padd i (List.length (fst (r_share_block_n t n lc)))) s' /\
     st_eqB (abs_heap F s') (Heap.share p (Z.of_N n) (abs_heap F s)) /\
-    (forall r, r <> TEMP -> rget s' r = rget s r).
+    (forall r, r <> TEMP -> rget s' r = rget s r) /\
+    (forall a, ~ is_blk a -> hword s' a = hword s a).
 Proof.
   intros PL T0 T1 T2 T3 HH HF HP PB FI NW.
   pose proof (represents_own s h0 f0 HH HF) as RP.
   destruct (rv_share_block_n_refines im i t n lc s _ p PL T0 T1 T2 T3 RP HP (ptr_valid p PB) FI) as (s' & ST & RP' & KR).
-  exists s'. split; [exact ST|]. split; [|exact KR].
+  exists s'. split; [exact ST|]. split; [|split; [exact KR|intros a Ha; destruct RP' as (W & _); rewrite W; now apply a_share_nonblk]].
   eapply st_eqB_trans; [apply (represents_abs F _ _ RP')|].
   eapply st_eqB_trans; [apply habs_share; [exact PB|exact NW]|].
   apply share_st_eqB; [|exact PB]. apply st_eqB_sym. eapply abs_heap_own; eauto.
@@ -230,12 +277,14 @@ Theorem rv_erase_block_heap i t lc s p F h0 f0 :
   exists s',
     star im i s (padd i (List.length (fst (r_erase_block t lc)))) s' /\
     st_eqB (abs_heap F s') (Heap.erase p (abs_heap F s)) /\
-    (forall r, r <> TEMP -> r <> FREE -> rget s' r = rget s r).
+    (forall r, r <> TEMP -> r <> FREE -> rget s' r = rget s r) /\
+    (forall a, ~ is_blk a -> hword s' a = hword s a) /\
+    (exists f', rget s' FREE = Some f').
 Proof.
   intros PL T0 T1 T2 T3 HH HF HP PB NW.
   pose proof (represents_own s h0 f0 HH HF) as RP.
   destruct (rv_erase_block_refines im i t lc s _ p PL T0 T1 T2 T3 RP HP (ptr_valid p PB)) as (s' & ST & RP' & KR).
-  exists s'. split; [exact ST|]. split; [|exact KR].
+  exists s'. split; [exact ST|]. split; [|split; [exact KR|split; [intros a Ha; destruct RP' as (W & _); rewrite W; now apply a_erase_nonblk|destruct RP' as (_ & _ & X); eauto]]].
   eapply st_eqB_trans; [apply (represents_abs F _ _ RP')|].
   eapply st_eqB_trans; [apply habs_erase; [exact PB|exact NW]|].
   apply erase_st_eqB; [|exact PB]. apply st_eqB_sym. eapply abs_heap_own; eauto.
@@ -264,14 +313,15 @@ Qed.
    `Heap.acquire`'s (with its frontier: in the bump case the frontier moves by one block) *)
 Lemma acquire_st_eqB a b :
   st_eqB a b -> is_blk (Heap.heap b) -> (Heap.hdr (Heap.m b (Heap.heap b)) = 0 -> is_blk (Heap.free b)) ->
-  (forall c, In c (Heap.ps (Heap.m b (Heap.free b))) -> c = 0 \/ is_blk c) ->
+  (Heap.hdr (Heap.m b (Heap.heap b)) = 0 -> Heap.hdr (Heap.m b (Heap.free b)) <> 0 ->
+     forall c, In c (Heap.ps (Heap.m b (Heap.free b))) -> c = 0 \/ is_blk c) ->
   fst (Heap.acquire a) = fst (Heap.acquire b) /\ st_eqB (snd (Heap.acquire a)) (snd (Heap.acquire b)).
 Proof.
   intros (A1 & A2 & A3 & A4) HB FB CB. unfold Heap.acquire. rewrite A1, A2, A3, (A4 _ HB).
   destruct (Z.eqb_spec (Heap.hdr (Heap.m b (Heap.heap b))) 0) as [E0|N0]; cbn [negb].
-  - specialize (FB E0). rewrite (A4 _ FB). destruct (Heap.hdr (Heap.m b (Heap.free b)) =? 0).
+  - specialize (FB E0). specialize (CB E0). rewrite (A4 _ FB). destruct (Z.eqb_spec (Heap.hdr (Heap.m b (Heap.free b))) 0) as [F0|FN].
     + split; [reflexivity|]. repeat split; auto.
-    + split; [reflexivity|]. cbn [snd].
+    + specialize (CB FN). split; [reflexivity|]. cbn [snd].
       assert (G : forall l sa sb, st_eqB sa sb -> (forall c, In c l -> c = 0 \/ is_blk c) ->
                 st_eqB (fold_left (fun s c => Heap.erase c s) l sa) (fold_left (fun s c => Heap.erase c s) l sb)).
       { induction l as [|c l IH]; intros sa sb E H; cbn [fold_left]; [exact E|].
